@@ -158,7 +158,12 @@ class World:
     def revisit(self, snap):
         files, self.flags, self.lang, self.out, self.env = snap[0], list(snap[1]), snap[2], snap[3], dict(snap[4])
         for k, v in files.items():
-            if self.files.get(k) != v: self.write(k, v)
+            if self.files.get(k) != v:
+                if '__TIMESTAMP__' in v:
+                    # a re-written __TIMESTAMP__ header is a new text (its modification time is part of it): it gets a size of its own, like every
+                    # other version of such a header (F-C04-b is not what these histories are about)
+                    self.h1_edits = getattr(self, 'h1_edits', 0) + 1; v = v.split('/*')[0] + '/*' + 'x' * self.h1_edits + '*/\n'
+                self.write(k, v)
     def restart(self):
         self.sc.stop(); self.sc.start(); self.trace.append('restart server')
 
@@ -178,7 +183,14 @@ def mutate(w, rng):
             w.write('h1.h', '#define A %d\n' % rng.randrange(1, 9) + stamp + '/*' + 'x' * w.h1_edits + '*/\n'); return 'edit header h1 (uses __TIMESTAMP__, new size)'
         w.write('h1.h', '#define A %d\n' % rng.randrange(1, 9)); return 'edit header h1 (same size)'
     if k == 3: w.write('inc1/h2.h', '#define B %d\n' % rng.randrange(10, 9999)); return 'edit header inc1/h2'
-    if k == 4: w.write('main.c', SRC.format(fn='f', k=1)); w.write('h1.h', '#define A 3\n' + stamp); w.write('inc1/h2.h', '#define B 4\n'); return 'revert all files'
+    if k == 4:
+        w.write('main.c', SRC.format(fn='f', k=1)); w.write('inc1/h2.h', '#define B 4\n')
+        if stamp:
+            # (a re-written __TIMESTAMP__ header has a new modification time, i.e. a new text: it gets a new size as well, see above)
+            w.h1_edits = getattr(w, 'h1_edits', 0) + 1
+            w.write('h1.h', '#define A 3\n' + stamp + '/*' + 'x' * w.h1_edits + '*/\n')
+        else: w.write('h1.h', '#define A 3\n')
+        return 'revert all files'
     if k == 5: w.flags = [f for f in w.flags if not f.startswith('-DX')] + ['-DX=%d' % rng.randrange(3)]; return 'change define'
     if k == 6: w.flags = [f for f in w.flags if not f.startswith('-O')] + [rng.choice(['-O0', '-O1', '-O2'])]; return 'change optimisation'
     if k == 7: w.flags = [f for f in w.flags if not f.startswith('-Iinc')] + ['-Iinc1' if '-Iinc2' in w.flags else '-Iinc2']; return 'switch include path'
